@@ -2,7 +2,7 @@
    prefix as end-of-stream, every other one as a format error; end-of-stream is reported for
    the empty stream only.  Unbounded: all item lists, all cut points. *)
 From Coq Require Import List ZArith Bool Lia.
-From TskVerif Require Import Base.Common Gen.Generated C05.Bytes C05.Kastore C05.KastoreProofs.
+From TskVerif Require Import Base.Common Gen.Generated C05.Bytes C05.Kastore C05.KastoreProofs C05.TskFile C05.StreamProofs.
 Import ListNotations.
 Open Scope Z_scope.
 
@@ -178,3 +178,25 @@ Proof.
   destruct (take _ s2) as [[kbuf s3]|]; [|discriminate].
   destruct read_all; [apply read_blocks_not_eof | discriminate].
 Qed.
+
+(* a stream on which complete stores are followed by a proper, non-empty prefix of a further
+   store (cut anywhere: inside the magic, the header, the descriptors, the keys, the arrays):
+   reading until end-of-stream ends with a FORMAT error, never with the clean end-of-stream signal *)
+Theorem stream_truncated_tail (stores : list (list item)) its n :
+  Forall enc_ok stores -> items_ok its -> (0 < n < length (kas_write its))%nat ->
+  read_all_stores (S (S (length stores))) (concat (map kas_encode stores) ++ firstn n (kas_write its)) = Err E_FORMAT.
+Proof.
+  intros H Hok Hn. induction H as [|a r (Ha1 & Ha2 & Ha3) Hr IH].
+  - cbn [length map concat app]. cbn [read_all_stores].
+    rewrite truncation_rejected_decode by (auto; lia).
+    destruct n; [lia|]. reflexivity.
+  - cbn [length map concat]. rewrite <- app_assoc. remember (S (S (length r))) as k. cbn [read_all_stores].
+    rewrite kas_roundtrip by auto. subst k. rewrite IH. reflexivity.
+Qed.
+
+Example stream_truncated_tail_ex :
+  let a := [mk_item [120] 1 2 [7; 8]] in
+  forallb (fun n => match read_all_stores 3 (kas_encode a ++ firstn n (kas_encode a)) with Err e => e =? E_FORMAT | _ => false end)
+          (seq 1 137) = true
+  /\ length (kas_encode a) = 138%nat /\ read_all_stores 3 (kas_encode a ++ kas_encode a) = Ok [sort_items a; sort_items a].
+Proof. vm_compute. repeat split; reflexivity. Qed.
